@@ -9,7 +9,8 @@ def run(ctx):
     cov = simcommon.coverage_from(res, "Adversarial prefix (random schedule, truncations, lost responses, silent minority < n/3 from a random point) then "
         "fair all-pairs cycles among the live nodes until quiescence (nobody busy, everything accepted is committed by all, equal block counts); bound 30 cycles.")
     allstats = list(res["stats"])
-    for fl in ("splitlive", "longsilent"):
+    for fl in ("splitlive", "longsilent", "relag"):
+        # relag: one validator lags from the start, wakes up holding uncommitted loaded events and fast-forwards, then the fair suffix
         # splitlive: directed split-vote prefix (undecided rounds backlog) then the fair suffix; longsilent: a minority silent for good,
         # node 0 on an InmemStore with cache 200, more than 200 further events, then the fair suffix
         r2 = simcommon.run(ctx, fl)
